@@ -2,6 +2,7 @@
 package checks
 
 import (
+	"encoding/json"
 	"fmt"
 	"math/rand"
 	"strings"
@@ -10,6 +11,7 @@ import (
 	"verif/internal/harness"
 	"verif/internal/hooks"
 	"verif/internal/lib"
+	"verif/internal/p2a"
 	"verif/internal/spec"
 )
 
@@ -263,3 +265,48 @@ func short(s string, n int) string {
 }
 
 func joinLines(ss []string) string { return strings.Join(ss, " || ") }
+
+// stringCase turns a hostile-generator string that the library accepts into a differential
+// case: the AST is recovered from the grammar's own parse tree (p2a), so SPEC can judge paths
+// that no AST generator produced (the suite's paths, their mutations, token soup that parses).
+// ok=false: the string does not parse / is not derivable (C02 / C17 territory).
+func stringCase(c *harness.Ctx, r *rand.Rand, g *gen.Gen, src *strSource) (*diffCase, bool) {
+	s, class := src.sg.Next(r, g)
+	po := lib.Parse(s, std.Config(false))
+	if po.Panic != nil || po.Err != nil || po.F == nil {
+		c.Tally("string-unparsable")
+		return nil, false
+	}
+	res, derivable, err := p2a.Convert(src.sg.Grammar, s)
+	if !derivable || err != nil {
+		c.Tally("string-accepted-but-not-converted") // accept/reject disagreements are C17's verdict
+		return nil, false
+	}
+	c.Cover("string-class:" + class)
+	d := &diffCase{P: res.Path, Text: s, Texts: res.Texts, UseNum: r.Intn(2) == 0}
+	switch r.Intn(4) {
+	case 0:
+		d.Doc = gen.Battery[r.Intn(len(gen.Battery))]
+	case 1:
+		d.Doc = lib.JS(g.Doc(4))
+	default:
+		d.Doc = lib.JS(g.DocFor(d.P))
+	}
+	if class == "suite" || class == "suite-mutated" {
+		// half of the time the document the suite itself uses for the nearest path
+		if r.Intn(2) == 0 && len(src.sg.Suite) > 0 {
+			sc := src.sg.Suite[r.Intn(len(src.sg.Suite))]
+			for _, x := range src.sg.Suite {
+				if x.Path == s {
+					sc = x
+					break
+				}
+			}
+			var probe interface{}
+			if json.Unmarshal([]byte(sc.JSON), &probe) == nil {
+				d.Doc = sc.JSON
+			}
+		}
+	}
+	return d, true
+}
